@@ -5,7 +5,7 @@
    JudgeRoundTrip.tla compares the customer activities per vehicle shift (order, place = location + tag) and the unassigned sets;
  - CSV import: GenCsv.tla enumerates job / vehicle tables; the imported problem must carry exactly that data and be valid."""
 import collections, copy, datetime, json, os, random, time
-from vlib import common, pgen, vinst
+from vlib import project, common, pgen, vinst
 from vlib.common import ToolError
 
 BASE = datetime.datetime(2020, 7, 4)
@@ -92,6 +92,16 @@ def run(pid, tier):
     inits = []
     for i in range(n_init):
         c = pgen.make_case(rnd.randrange(1 << 30), rnd.choice(['tiny', 'small', 'small', 'medium']), gens=rnd.choice([1, 3, 10]))
+        if i % 5 == 4:
+            # a required break listed in front of the optional break(s) of a shift, so late that no tour meets it: the optional breaks keep
+            # their place in the list but are no longer the first entries (ids of conditional jobs are derived from positions)
+            c = pgen.make_case(rnd.randrange(1 << 30), rnd.choice(['small', 'medium']), gens=rnd.choice([3, 10]), features={'breaks': True, 'travel_only': False, 'unreachable': False})
+            for vt in c['problem']['fleet']['vehicles']:
+                for sh in vt['shifts']:
+                    if sh.get('breaks'):
+                        late = sh['end']['latest'] if sh.get('end') else pgen.ts(project.ts(sh['start']['earliest']) + 90000)
+                        sh['breaks'].insert(0, {'time': {'earliest': late, 'latest': late}, 'duration': 10.0})
+            c['id'] += 'q'
         inits.append(c)
         cases.append({'id': 'in-' + c['id'], 'kind': 'init', 'problem': c['problem'], 'matrices': c['matrices'], 'config': c['config']})
         cases.append({'id': 'pp-' + c['id'], 'kind': 'doc', 'what': 'problem', 'doc': c['problem']})
